@@ -85,8 +85,14 @@ let handle_parsemove line args obs =
         | Some m -> Printf.sprintf "OK %d %d %d" (int_of_n m.mfrom) (int_of_n m.mto) (int_of_n m.mpromo)
         | None -> "ERR") in
     bump "parsemove";
+    let ascii = List.for_all (fun c -> int_of_string c < 128) (List.filter (fun w -> w <> "") (split_on ',' ctok)) in
     if String.trim obs = "CRASH" then report_spec ~key:"prop=C19" line "ParseMove crashed"
-    else if m <> String.trim obs then report_mismatch line m
+    else begin
+      if m <> String.trim obs then report_mismatch line m;
+      (* coordinate notation is ASCII: a string with any other rune denotes no move *)
+      if (not ascii) && String.length (String.trim obs) >= 2 && String.sub (String.trim obs) 0 2 = "OK" then
+        report_spec ~key:"prop=C19 key=non-ascii-accepted" line "ParseMove accepted a string that is not coordinate notation"
+    end
   | _ -> failwith "bad parsemove"
 
 let handle_parsesq line args obs =
@@ -95,7 +101,19 @@ let handle_parsesq line args obs =
     let m = (match parse_square_str (str_of_codes ctok) with Some s -> Printf.sprintf "OK %d" (int_of_n s) | None -> "ERR") in
     bump "parsesq";
     if String.trim obs = "CRASH" then report_spec ~key:"prop=C19" line "ParseSquare crashed"
-    else if m <> String.trim obs then report_mismatch line m
+    else begin
+      if m <> String.trim obs then report_mismatch line m;
+      (* the value a square text denotes: file letter a-h (either case) and rank digit 1-8, H1 = 0 *)
+      let cs = List.map int_of_string (List.filter (fun w -> w <> "") (split_on ',' ctok)) in
+      let expect = (match cs with
+          | [f; r] ->
+            let f = if f >= 65 && f <= 72 then f + 32 else f in
+            if f >= 97 && f <= 104 && r >= 49 && r <= 56 then Printf.sprintf "OK %d" ((r - 49) * 8 + (104 - f)) else "ERR"
+          | _ -> "ERR") in
+      let o = String.trim obs in
+      if String.length o >= 2 && String.sub o 0 2 = "OK" && o <> expect then
+        report_spec ~key:"prop=C19 key=square-value" line (Printf.sprintf "ParseSquare returned %s for a text that denotes %s" o expect)
+    end
   | _ -> failwith "bad parsesq"
 
 let empty_engine () : engine =
